@@ -1,0 +1,13 @@
+//go:build verif
+
+package keeper
+
+// Machine-checked contracts for the govc verifier (/verif). Comment-only; compiled only with -tags verif.
+
+// The vault sweep of the begin-blocker never panics (C15): the window is cut from the real list, so the published vault
+// counter must not exceed the number of stored vaults (this is C01's count invariant; a counter that runs ahead would panic here).
+//@ func (k Keeper) LiquidateVaults
+//@   property C15, C09
+//@   requires #count-matches-list: k.vault.GetLengthOfVault(ctx) <= len(k.vault.GetVaults(ctx))
+//@   requires #batch-bound: k.GetParams(ctx).LiquidationBatchSize <= pow2(62) && len(k.vault.GetVaults(ctx)) <= pow2(62)
+//@   nopanic
